@@ -93,6 +93,15 @@ impl ChurnGen {
             q.push_back(Op::Add(*v));
         }
         let mut holders: Vec<usize> = vec![];
+        if self.rng.chance(1, 4) {
+            // a datum put AND read while the vertex is still ungrouped (it joins the group as "read")
+            let v = *self.rng.pick(&ids);
+            q.push_back(Op::Put(v, gen_data(&mut self.rng, true)));
+            q.push_back(Op::Data(v));
+            if self.rng.chance(1, 3) {
+                q.push_back(Op::Data(v));
+            }
+        }
         if shape == 1 || shape == 3 {
             // put before any bind on one or two members
             let k = self.rng.range(1, 2.min(ids.len()));
